@@ -34,6 +34,10 @@ end
 
 function CalculateWeight(route, stableWeight, n)
     local weight
+    -- the weight of a sole destination is irrelevant to istio, it takes the whole stable share
+    if (n == 1) then
+        return stableWeight
+    end
     if (route.weight) then
         weight = math.floor(route.weight * stableWeight / 100)
     else
